@@ -39,7 +39,14 @@ Record result := mkresult {
 
 Definition M (A : Type) : Type := outcome string A.
 
-Inductive variant := Pinned | Fixed.
+(** [Pinned]: the templates of /repo when the model was first written.  [Fixed]: [Pinned] + the repair of the
+    within-word stop test (patches/c12-within-word-stop-test.patch).  [Repaired]: the whole proposed repair
+    (patches/combined-within-word-and-candidates.patch): quoted operands (string comparisons instead of glob
+    matches), candidates = text before the first tab of every line, empty candidates never consumed, no
+    `word_index+1 == cword` escape, candidate arrays reset at every fallback level. *)
+Inductive variant := Pinned | Fixed | Repaired.
+
+Definition quirky (v : variant) : bool := match v with Repaired => false | _ => true end.
 
 (** *** bash: keys of an associative array
     hash_string = FNV-1 (32 bit) over the key's bytes; 1024 buckets; a new key goes to the head of its
@@ -148,6 +155,14 @@ Fixpoint until_tab (s : string) : string :=
   | String c r => if aeq c c_tab then EmptyString else String c (until_tab r)
   | EmptyString => EmptyString
   end.
+
+(** [Repaired]: cmd | while IFS= read -r line; do printf '%s\n' "${line%%$'\t'*}"; done, read back with readarray -t *)
+Definition filter_lines_repaired (output : string) : list string :=
+  readarray_acc (sconcat (map (fun l => (until_tab l ++ String c_nl EmptyString)%string) (complete_lines output)))
+                EmptyString.
+
+Definition command_lines (v : variant) (output : string) : list string :=
+  if quirky v then filter_lines output else filter_lines_repaired output.
 
 (** *** bash: ... | sort -nrk2,2 -rk3 | cut -f1 -d' '   over the lines "i len text"
     The option letters before [k] are GLOBAL options of sort(1), so both keys are numeric and reversed:
@@ -285,11 +300,11 @@ Definition match_fn (e : env) (prefix : string) (cands : list string) : M (list 
 Definition cmd_output (e : env) (cid : N) : string :=
   match assocN cid (e_outputs e) with Some o => o | None => EmptyString end.
 
-Definition run_cmd (tabs : alltables) (e : env) (cid : N) (a1 a2 : string) (log : list invocation)
+Definition run_cmd (v : variant) (tabs : alltables) (e : env) (cid : N) (a1 a2 : string) (log : list invocation)
   : M (list string * list invocation) :=
   match nthN (a_commands tabs) cid with
   | None => Err ("no command function with id " ++ dec cid)%string
-  | Some _ => Ok (filter_lines (cmd_output e cid), (cid, a1, a2) :: log)
+  | Some _ => Ok (command_lines v (cmd_output e cid), (cid, a1, a2) :: log)
   end.
 
 (** *** table access as the script does it *)
@@ -352,11 +367,43 @@ Fixpoint lit_loop_fixed (complete : bool) (lits : list (N * string)) (st : list 
     end
   end.
 
-Definition lit_loop (v : variant) (complete : bool) :=
-  match v with Pinned => lit_loop_pinned | Fixed => lit_loop_fixed complete end.
+(** [Repaired]: the same three tests with quoted operands, i.e. on plain strings *)
+Fixpoint lit_loop_str (complete : bool) (lits : list (N * string)) (st : list (N * N)) (sub : string) : step :=
+  match lits with
+  | [] => SNone
+  | (lid, lit) :: r =>
+    match assocN lid st with
+    | None => lit_loop_str complete r st sub
+    | Some to =>
+      if String.eqb lit sub then SCont to (String.length lit)
+      else if complete && String.prefix sub lit then SBreak
+      else if String.prefix lit sub then SCont to (String.length lit)
+      else lit_loop_str complete r st sub
+    end
+  end.
+
+Definition lit_loop (v : variant) (complete : bool) (lits : list (N * string)) (st : list (N * N)) (sub : string)
+  : M step :=
+  match v with
+  | Pinned => lit_loop_pinned lits st sub
+  | Fixed => lit_loop_fixed complete lits st sub
+  | Repaired => Ok (lit_loop_str complete lits st sub)
+  end.
+
+(** [Repaired]: [[ $candidate == "$subword" ]], [[ $mode = complete && $candidate == "$subword"* ]],
+    [[ -n $candidate && $subword == "$candidate"* ]] *)
+Fixpoint cand_loop_str (complete : bool) (cands : list string) (to : N) (sub : string) : step :=
+  match cands with
+  | [] => SNone
+  | c :: r =>
+    if String.eqb sub c then SCont to (String.length c)
+    else if complete && String.prefix sub c then SBreak
+    else if (match c with EmptyString => false | _ => true end) && String.prefix c sub then SCont to (String.length c)
+    else cand_loop_str complete r to sub
+  end.
 
 (** the loop over the sorted candidates of one command ([to] = state_commands[$cmd_id]) *)
-Fixpoint cand_loop (v : variant) (complete : bool) (cands : list string) (to : N) (sub : string) : M step :=
+Fixpoint cand_loop_glob (v : variant) (complete : bool) (cands : list string) (to : N) (sub : string) : M step :=
   match cands with
   | [] => Ok SNone
   | c :: r =>
@@ -365,14 +412,17 @@ Fixpoint cand_loop (v : variant) (complete : bool) (cands : list string) (to : N
     else
       do m2 <- (match v with
                 | Pinned => globm (sub ++ "*")%string c
-                | Fixed => if complete then globm (sub ++ "*")%string c else Ok false
+                | _ => if complete then globm (sub ++ "*")%string c else Ok false
                 end);
       if m2 then Ok SBreak
       else
         do m3 <- globm (c ++ "*")%string sub;
         if m3 then Ok (SCont to (String.length c))
-        else cand_loop v complete r to sub
+        else cand_loop_glob v complete r to sub
   end.
+
+Definition cand_loop (v : variant) (complete : bool) (cands : list string) (to : N) (sub : string) : M step :=
+  if quirky v then cand_loop_glob v complete cands to sub else Ok (cand_loop_str complete cands to sub).
 
 (** for cmd_id in "${!state_commands[@]}" *)
 Fixpoint cmd_loop (v : variant) (complete : bool) (tabs : alltables) (e : env)
@@ -381,7 +431,7 @@ Fixpoint cmd_loop (v : variant) (complete : bool) (tabs : alltables) (e : env)
   match cmds with
   | [] => Ok (SNone, log)
   | (cid, to) :: r =>
-    do (cands, log1) <- run_cmd tabs e cid sub mp log;
+    do (cands, log1) <- run_cmd v tabs e cid sub mp log;
     match cands with
     | [] => cmd_loop v complete tabs e r sub mp log1
     | _ =>
@@ -444,34 +494,35 @@ Definition sw_fuel (T : tables) (word : string) : nat :=
      * S (count_entries (t_mlit T) + match t_mcmd T with Some l => count_entries l | None => 0 end)).
 
 (** *** _<cmd>_subword: the completion part (one fallback level) *)
-Fixpoint sw_cmds_level (tabs : alltables) (e : env) (cids : list N) (cp mp : string)
+Fixpoint sw_cmds_level (v : variant) (tabs : alltables) (e : env) (cids : list N) (cp mp : string)
          (sc sm : list string) (log : list invocation)
   : M (list string * list string * list invocation) :=
   match cids with
   | [] => Ok (sc, sm, log)
   | cid :: r =>
-    do (cands, log1) <- run_cmd tabs e cid cp mp log;
+    do (cands, log1) <- run_cmd v tabs e cid cp mp log;
     do filtered <- match_fn e cp cands;
-    sw_cmds_level tabs e r cp mp cands (sm ++ map (append mp) filtered) log1
+    sw_cmds_level v tabs e r cp mp cands (sm ++ map (append mp) filtered) log1
   end.
 
 (** levels [level .. level+n-1]; [sc] = subword_candidates, [sm] = subword_matches.
     Returns what is appended to the caller's [matches]. *)
-Fixpoint sw_levels (n : nat) (level : nat) (tabs : alltables) (e : env) (T : tables)
+Fixpoint sw_levels (n : nat) (level : nat) (v : variant) (tabs : alltables) (e : env) (T : tables)
          (state : N) (mp cp : string) (sc sm : list string) (log : list invocation)
   : M (list string * list invocation) :=
   match n with
   | O => Ok ([], log)
   | S n' =>
-    let sc1 := sc ++ map (fun id => (mp ++ literal_at T id)%string) (level_row (t_clit T) level state) in
+    let sc0 := if quirky v then sc else [] in       (* [Repaired]: subword_candidates=() at every level *)
+    let sc1 := sc0 ++ map (fun id => (mp ++ literal_at T id)%string) (level_row (t_clit T) level state) in
     do m <- match_fn e (mp ++ cp)%string sc1;
     let sm1 := sm ++ m in
     do (sc2, sm2, log2) <- match t_ccmd T with
-                            | Some cc => sw_cmds_level tabs e (level_row cc level state) cp mp sc1 sm1 log
+                            | Some cc => sw_cmds_level v tabs e (level_row cc level state) cp mp sc1 sm1 log
                             | None => Ok (sc1, sm1, log)
                             end;
     match sm2 with
-    | [] => sw_levels n' (S level) tabs e T state mp cp sc2 sm2 log2
+    | [] => sw_levels n' (S level) v tabs e T state mp cp sc2 sm2 log2
     | _ => Ok (sm2, log2)
     end
   end.
@@ -486,7 +537,7 @@ Definition subword_matches_from (v : variant) (tabs : alltables) (e : env) (T : 
 Definition subword_complete_from (v : variant) (tabs : alltables) (e : env) (T : tables) (word : string)
            (state : N) (ci : nat) (log : list invocation) : M (list string * list invocation) :=
   do (_, state1, ci1, log1) <- sw_loop (sw_fuel T word) v true tabs e T word state ci log;
-  sw_levels (S (N.to_nat (t_maxlevel T))) 0 tabs e T state1 (stake ci1 word) (sdrop ci1 word) [] [] log1.
+  sw_levels (S (N.to_nat (t_maxlevel T))) 0 v tabs e T state1 (stake ci1 word) (sdrop ci1 word) [] [] log1.
 
 (** _<cmd>_subword_<id> matches "$word"  ->  (return code = 0, log) *)
 Definition subword_matches (v : variant) (tabs : alltables) (e : env) (T : tables) (word : string)
@@ -558,19 +609,21 @@ Inductive wstep :=
 | WNone.
 
 (** for cmd_id in "${!state_commands[@]}" at top level; [last] = (word_index + 1 == cword) *)
-Fixpoint top_cmd_loop (tabs : alltables) (e : env) (cmds : list (N * N)) (word : string) (last : bool)
+Fixpoint top_cmd_loop (v : variant) (tabs : alltables) (e : env) (cmds : list (N * N)) (word : string) (last : bool)
          (log : list invocation) : M (wstep * list invocation) :=
   match cmds with
   | [] => Ok (WNone, log)
   | (cid, to) :: r =>
-    do (cands, log1) <- run_cmd tabs e cid EmptyString EmptyString log;
+    do (cands, log1) <- run_cmd v tabs e cid EmptyString EmptyString log;
     match cands with
-    | [] => top_cmd_loop tabs e r word last log1
+    | [] => top_cmd_loop v tabs e r word last log1
     | _ =>
-      do m <- any_glob word (sort_desc cands);
+      (* [Repaired]: [[ $candidate == "$word" ]] and no escape *)
+      do m <- (if quirky v then any_glob word (sort_desc cands)
+               else Ok (existsb (String.eqb word) (sort_desc cands)));
       if m then Ok (WNext to, log1)
-      else if last then Ok (WEscape, log1)
-      else top_cmd_loop tabs e r word last log1
+      else if last && quirky v then Ok (WEscape, log1)
+      else top_cmd_loop v tabs e r word last log1
     end
   end.
 
@@ -600,7 +653,7 @@ Fixpoint walk (v : variant) (tabs : alltables) (e : env) (state : N) (words : li
         do (s2, log2) <- match t_mcmd T with
                           | Some ct =>
                             match assocN state ct with
-                            | Some row => top_cmd_loop tabs e (assoc_of row) word last log1
+                            | Some row => top_cmd_loop v tabs e (assoc_of row) word last log1
                             | None => Ok (WNone, log1)
                             end
                           | None => Ok (WNone, log1)
@@ -632,15 +685,15 @@ Fixpoint top_subs_level (v : variant) (tabs : alltables) (e : env) (sids : list 
     end
   end.
 
-Fixpoint top_cmds_level (tabs : alltables) (e : env) (cids : list N) (prefix : string)
+Fixpoint top_cmds_level (v : variant) (tabs : alltables) (e : env) (cids : list N) (prefix : string)
          (cands matches : list string) (log : list invocation)
   : M (list string * list string * list invocation) :=
   match cids with
   | [] => Ok (cands, matches, log)
   | cid :: r =>
-    do (cands1, log1) <- run_cmd tabs e cid prefix EmptyString log;
+    do (cands1, log1) <- run_cmd v tabs e cid prefix EmptyString log;
     do m <- match cands1 with [] => Ok [] | _ => match_fn e prefix cands1 end;
-    top_cmds_level tabs e r prefix cands1 (matches ++ m) log1
+    top_cmds_level v tabs e r prefix cands1 (matches ++ m) log1
   end.
 
 (** ${prefix##*$char} for every character of COMP_WORDBREAKS: the shortest remainder *)
@@ -674,12 +727,13 @@ Fixpoint top_levels (n : nat) (level : nat) (v : variant) (tabs : alltables) (e 
   | O => Ok ([], log)
   | S n' =>
     let T := a_main tabs in
-    let cands1 := cands ++ map (fun id => (literal_at T id ++ " ")%string) (level_row (t_clit T) level state) in
+    let cands0 := if quirky v then cands else [] in  (* [Repaired]: candidates=() at every level *)
+    let cands1 := cands0 ++ map (fun id => (literal_at T id ++ " ")%string) (level_row (t_clit T) level state) in
     do m <- match cands1 with [] => Ok [] | _ => match_fn e prefix cands1 end;
     let matches1 := matches ++ m in
     do (matches2, log2) <- top_subs_level v tabs e (level_row (a_csub tabs) level state) prefix matches1 log;
     do (cands3, matches3, log3) <- match t_ccmd T with
-                                    | Some cc => top_cmds_level tabs e (level_row cc level state) prefix cands1 matches2 log2
+                                    | Some cc => top_cmds_level v tabs e (level_row cc level state) prefix cands1 matches2 log2
                                     | None => Ok (cands1, matches2, log2)
                                     end;
     match matches3 with
